@@ -1402,7 +1402,16 @@ class Interp:
         params = mem.posparams
         vals = ([recv] if mem.kind in ("method", "getter", "setter", "deleter") else []) + list(args)
         for i, p in enumerate(params):
-            env[p] = vals[i] if i < len(vals) else ("default", p)
+            if i < len(vals):
+                env[p] = vals[i]
+            else:
+                d_ = getattr(mem, "defaults", {}).get(p)
+                if isinstance(d_, ast.Constant) and d_.value is None:
+                    env[p] = NONE  # the parameter's default, known exactly
+                elif isinstance(d_, ast.Constant):
+                    env[p] = ("const", repr(d_.value))
+                else:
+                    env[p] = ("default", p)
         s0.env = env
         s0.emit(Event("ENTER", mem, stmt, callee.id, name=mem.qual, recv=recv, args=tuple(args), depth=depth))
         for s1, ctl in self._block(body, s0, callee):
